@@ -120,6 +120,43 @@ theorem locked_forever (s : St) (hI : Inv s) (hS : s.sup ≠ 0) (ops : List Op) 
   · exact absurd h0 hS
   · omega
 
+/-- **a swap is priced on the reported reserves** — balance minus pending protocol fees, the offer
+    that has just arrived excluded — by the constant-product computation of C02 (`cpSwap`, whose exact
+    price / fee split / no-free-money theorems are in WW/Props/C02.lean); the swap fee stays in the
+    reserves, the burn fee leaves, the protocol fee moves to the fee ledger; LP supply is untouched -/
+theorem swap_priced_on_reported_reserves {s s' : St} {u dir off rcv : Nat} {ms : Option Nat}
+    (h : swap cpCurve s u dir off ms rcv = .ok s') :
+    s'.sup = s.sup ∧ s'.lpPair = s.lpPair ∧
+    ((dir = 0 ∧ ∃ c, cpSwap s.x0.res s.x1.res off s.fees = .ok c ∧
+        s'.x0.bal = s.x0.bal + off ∧ s'.x0.pend = s.x0.pend ∧
+        s'.x1.bal = s.x1.bal - c.ret - c.burnFee ∧ s'.x1.pend = s.x1.pend + c.protFee ∧
+        s'.x1.res + c.ret + c.protFee + c.burnFee = s.x1.res) ∨
+     (dir ≠ 0 ∧ ∃ c, cpSwap s.x1.res s.x0.res off s.fees = .ok c ∧
+        s'.x1.bal = s.x1.bal + off ∧ s'.x1.pend = s.x1.pend ∧
+        s'.x0.bal = s.x0.bal - c.ret - c.burnFee ∧ s'.x0.pend = s.x0.pend + c.protFee ∧
+        s'.x0.res + c.ret + c.protFee + c.burnFee = s.x0.res)) := by
+  obtain ⟨e1, e2, _, _, _, hcase⟩ := swap_ok h
+  refine ⟨e1, e2, ?_⟩
+  rcases hcase with ⟨hd, a', c, fx, x0, x1, _, _⟩ | ⟨hd, a', c, fx, x1, x0, _, _⟩
+  · left
+    obtain ⟨g, hg1, _, hg3⟩ := cp_swap_bound fx
+    have hc : cpSwap (s.x0.bal + off - s.x0.pend - off) (s.x1.bal - s.x1.pend) off s.fees = .ok c := fx.comp
+    have ho := fx.offerOk; have := fx.askOk; have := fx.bal; have := fx.pend; have := fx.paid
+    simp only [] at ho
+    have e : s.x0.bal + off - s.x0.pend - off = s.x0.bal - s.x0.pend := by omega
+    rw [e] at hc
+    refine ⟨hd, c, hc, by rw [x0], by rw [x0], by rw [x1]; exact fx.bal, by rw [x1]; exact fx.pend, ?_⟩
+    rw [x1]; simp only [Side.res] at *; omega
+  · right
+    obtain ⟨g, hg1, _, hg3⟩ := cp_swap_bound fx
+    have hc : cpSwap (s.x1.bal + off - s.x1.pend - off) (s.x0.bal - s.x0.pend) off s.fees = .ok c := fx.comp
+    have ho := fx.offerOk; have := fx.askOk; have := fx.bal; have := fx.pend; have := fx.paid
+    simp only [] at ho
+    have e : s.x1.bal + off - s.x1.pend - off = s.x1.bal - s.x1.pend := by omega
+    rw [e] at hc
+    refine ⟨hd, c, hc, by rw [x1], by rw [x1], by rw [x0]; exact fx.bal, by rw [x0]; exact fx.pend, ?_⟩
+    rw [x0]; simp only [Side.res] at *; omega
+
 /-- fee-setting: only the owner, only valid fee triples; nothing else changes -/
 theorem set_fees_guarded {s s' : St} {o : Bool} {f : Fees} (h : setFees s o f = .ok s') :
     o = true ∧ f.valid = true ∧ s' = { s with fees := f } := setFees_ok h
